@@ -1,2 +1,221 @@
-(** Properties_C14.v — placeholder while the model is being tied to the code; replaced below. *)
-From LC Require Import Load1xDefs To1xDefs.
+(** Properties_C14.v — C14 "CellML 1.0/1.1 documents are faithfully transformed in permissive mode": statements only.
+
+    Models: XmlDefs / EntTreeDefs / PrintDefs / LoadDefs / RoundtripSpec (C02: trees, entity model, Printer::printModel, the
+    CellML 2.0 paths of Parser::parseModel, canon / printable / content_eq), Load1xDefs ([load1x]: the mParsing1XVersion
+    paths of src/parser.cpp and the MathML namespace rewriting at tree level), To1xDefs ([to1x v ist cm us hoist E m]: the
+    mechanical rewriting of the printed 2.0 document into 1.0 / 1.1 syntax; [conv_ok]; [expressible_1x]).
+
+    Flags of [load1x E fx fi fd strict]: fx = fix C02-crossed-map-variables (already in /repo), fi = fix C14-interface-none,
+    fd = fix C14-foreign-children; [false] = the code without the fix.  Every theorem below is stated for BOTH values of
+    the flags unless it names one.  The environment [E] (15-digit printing, strtod, libxml2's serialisation of a math
+    element) is universally quantified, as in C02.
+    The style of the rewriting — which of in / out is written, the order of public_interface / private_interface,
+    explicit "none" ([ist], any function of the variable's attributes), cmeta:id or id ([cm]), liter / meter ([us]) — is
+    universally quantified; [style_ok ist fi] = explicit "none" is only written for the repaired parser. *)
+From Coq Require Import String Ascii List Bool ZArith Permutation.
+From LC Require Import Common NumDefs XmlDefs EntTreeDefs PrintDefs LoadDefs RoundtripSpec Load1xDefs To1xDefs
+     RoundtripEncProofs TransformSimProofs TransformProofs Load1xProofs Drop1xSpec Drop1xProofs.
+From LCGen Require RuleTable.
+Import ListNotations.
+Local Open Scope string_scope.
+
+(** * transform_roundtrip *)
+
+(** the core: for EVERY document of the printer's vocabulary without resets ([conv_ok]: any attribute order, any values,
+    imports, encapsulation, connections, MathML) the permissive parser applied to its 1.x rewriting returns the model the
+    strict 2.0 parser returns on the document itself, with the same issues after the one transformation message *)
+Theorem C14_simulation : forall E fx fi fd v ist cm us t, style_ok ist fi -> conv_ok t = true -> namespace_issues t = [] ->
+  load1x E fx fi fd false (conv1x v ist cm us false t) = (fst (load E fx true t), msg :: snd (load E fx true t)).
+Proof. intros. now apply TransformSimProofs.sim_load. Qed.
+Print Assumptions C14_simulation.
+
+(** hence for every printable, expressible model — ALL features: connections and 1.1 imports included — the 1.x
+    rewriting is read exactly as the 2.0 print is read *)
+Theorem C14_transform_as_20 : forall E fx fi fd v ist cm us m, style_ok ist fi -> printable E true m -> expressible_1x E v m ->
+  load1x E fx fi fd false (to1x v ist cm us false E m)
+  = (fst (load E fx true (print_tree E m)), msg :: snd (load E fx true (print_tree E m))).
+Proof. intros. now apply TransformProofs.transform_as_20. Qed.
+Print Assumptions C14_transform_as_20.
+
+(** stage flat: the transformed model is EXACTLY canon m, the only issue is the transformation message *)
+Theorem C14_transform_roundtrip_flat : forall E fx fi fd v ist cm us m, style_ok ist fi -> printable E true m ->
+  expressible_1x E v m -> flat m = true ->
+  load1x E fx fi fd false (to1x v ist cm us false E m) = (canon E m, [msg]).
+Proof. intros. now apply TransformProofs.transform_flat. Qed.
+Print Assumptions C14_transform_roundtrip_flat.
+
+(** stage encapsulation (groups / relationship_ref / component_ref of any depth, cmeta:id on component_ref) *)
+Theorem C14_transform_roundtrip_encapsulation_exact : forall E fx fi fd v ist cm us m, style_ok ist fi -> printable E true m ->
+  expressible_1x E v m -> no_imports m = true -> no_connections m = true ->
+  load1x E fx fi fd false (to1x v ist cm us false E m)
+  = ({| m_name := m_name m; m_id := m_id m; m_encid := m_encid m; m_units := map (canon_units E) (m_units m);
+        m_comps := map (canon_comp E) (enc_order (m_comps m)); m_eqv := [] |}, [msg]).
+Proof. intros. now apply TransformProofs.transform_encapsulation_exact. Qed.
+Print Assumptions C14_transform_roundtrip_encapsulation_exact.
+
+(** transform_roundtrip as stated in the design, on the fragment C02's round trip reaches (no imports, no connections) *)
+Theorem C14_transform_roundtrip_partial : forall E fx fi fd v ist cm us m, style_ok ist fi -> printable E true m ->
+  expressible_1x E v m -> no_imports m = true -> no_connections m = true ->
+  exists m' is, load1x E fx fi fd false (to1x v ist cm us false E m) = (m', is)
+                /\ content_eq m' (canon E m) /\ Forall (fun i => is_message i = true) is.
+Proof. intros. now apply TransformProofs.transform_roundtrip. Qed.
+Print Assumptions C14_transform_roundtrip_partial.
+
+(** the printed document of an expressible model is in the class of the simulation *)
+Theorem C14_print_tree_conv_ok : forall E v m, nonempty (m_name m) = true -> expressible_1x E v m -> conv_ok (print_tree E m) = true.
+Proof. intros. eapply TransformProofs.print_tree_conv_ok; eassumption. Qed.
+Print Assumptions C14_print_tree_conv_ok.
+
+(* NOT PROVED:
+   transform_roundtrip : forall E fx fi fd v ist cm us m, style_ok ist fi -> printable E true m -> expressible_1x E v m ->
+     exists m' is, load1x E fx fi fd false (to1x v ist cm us false E m) = (m', is)
+                   /\ content_eq m' (canon E m) /\ Forall (fun i => is_message i = true) is
+   for models WITH connections or imports.  C14_transform_as_20 reduces it, for all features, to C02's round trip
+   "load (print_tree m) = (m', []) /\ content_eq m' (canon m)", whose stages 4 (connections) and 5 (imports) are not
+   proved (design_notes/C02.md).  The instance of the statement is CHECKED on every generated model ("model instance of
+   the transformation theorems" in checks/c14.py: extracted expressible_1xb, printableb, to1x, load1x, canon).
+   Component-level units in the rewriting ([hoist = true]): not covered by C14_simulation; what the parser does with
+   them is C14_component_units_hoisted, and the documents are compared on every run. *)
+
+(** * strict_refuses *)
+Theorem C14_strict_refuses : forall E fx fi fd v ist cm us hoist m,
+  load1x E fx fi fd true (to1x v ist cm us hoist E m) = (empty_model, [(LError, "XML_UNEXPECTED_ELEMENT")]).
+Proof. intros. apply TransformProofs.strict_refuses. Qed.
+Print Assumptions C14_strict_refuses.
+
+(** ... and so is every document whose root is not a CellML 2.0 model element (any 1.0 / 1.1 document) *)
+Theorem C14_strict_refuses_any : forall E fx fi fd x, is_cellml20 "model" x = false ->
+  load1x E fx fi fd true x = (empty_model, [(LError, "XML_UNEXPECTED_ELEMENT")]).
+Proof. intros. now apply TransformProofs.strict_refuses_any. Qed.
+Print Assumptions C14_strict_refuses_any.
+
+(** * the interface merge *)
+
+(** for every variable element without an [interface] attribute whose attributes have distinct local names, among any
+    other attributes and in any order: the interface is the table entry for the two values *)
+Theorem C14_interface_merge : forall fi ns nm l ks, names_distinct (map a_name l) = true -> existsb (attr_is "interface") l = false ->
+  v_iface (fst (load_variable1 fi (Elem ns nm l ks))) = merged fi (lookup "public_interface" l) (lookup "private_interface" l).
+Proof. intros. now apply Load1xProofs.interface_merge. Qed.
+Print Assumptions C14_interface_merge.
+
+Theorem C14_interface_merge_order_free : forall fi ns nm l l' ks, Permutation l l' ->
+  names_distinct (map a_name l) = true -> existsb (attr_is "interface") l = false ->
+  v_iface (fst (load_variable1 fi (Elem ns nm l ks))) = v_iface (fst (load_variable1 fi (Elem ns nm l' ks))).
+Proof. intros. now apply Load1xProofs.interface_merge_order_free. Qed.
+Print Assumptions C14_interface_merge_order_free.
+
+(** the 3 x 3 table of public x private values (and absence) |-> 2.0 interface, with fix C14-interface-none *)
+Theorem C14_interface_merge_table :
+  table true =
+  [ (None, None, ""); (None, Some "in", "private"); (None, Some "out", "private"); (None, Some "none", "");
+    (Some "in", None, "public"); (Some "in", Some "in", "public_and_private"); (Some "in", Some "out", "public_and_private"); (Some "in", Some "none", "public");
+    (Some "out", None, "public"); (Some "out", Some "in", "public_and_private"); (Some "out", Some "out", "public_and_private"); (Some "out", Some "none", "public");
+    (Some "none", None, ""); (Some "none", Some "in", "private"); (Some "none", Some "out", "private"); (Some "none", Some "none", "") ].
+Proof. exact Load1xProofs.interface_merge_table_fixed. Qed.
+Print Assumptions C14_interface_merge_table.
+
+(** DESIGN.md section 5 row 31 (confirmed on the library): without the fix the VALUE is ignored *)
+Theorem C14_interface_none_refuted :
+  merged false (Some "none") (Some "none") = "public_and_private" /\ merged false (Some "none") None = "public"
+  /\ merged false None (Some "none") = "private"
+  /\ forall pu pr, merged false pu pr = merged true (option_map (fun _ => "in") pu) (option_map (fun _ => "in") pr).
+Proof. exact Load1xProofs.interface_merge_table_pinned. Qed.
+Print Assumptions C14_interface_none_refuted.
+
+(** * component_units_hoisted: the units of the transformed model are, in document order, the model-level units
+      elements, the units children of every component element, and the units the import elements name *)
+Theorem C14_component_units_hoisted : forall E fx fi fd x, is_cellml20 "model" x = false -> is_1x "model" x = true ->
+  m_units (fst (load1x E fx fi fd false x)) = doc_units E fd 0 (xml_kids x).
+Proof. intros. now apply Load1xProofs.component_units_hoisted. Qed.
+Print Assumptions C14_component_units_hoisted.
+
+Theorem C14_units_from_component : forall E fd x,
+  fst (units_from_component E fd x) = map (fun k => fst (load_units1 E fd k)) (filter (is_1x "units") (xml_kids x)).
+Proof. intros. apply Load1xProofs.units_from_component_spec. Qed.
+Print Assumptions C14_units_from_component.
+
+(** * nonsi_units_renamed *)
+Theorem C14_nonsi_units_renamed :
+  convert_nonsi "liter" = "litre" /\ convert_nonsi "meter" = "metre"
+  /\ (forall s, is_legacy_spelling s = false -> convert_nonsi s = s)
+  /\ (forall E fd ns nm pre post s ks, names_distinct (map a_name (pre ++ at_ "units" s :: post)) = true ->
+        ud_ref (fst (load_unit1 E fd (Elem ns nm (pre ++ at_ "units" s :: post) ks))) = convert_nonsi s)
+  /\ (forall fi ns nm pre post s ks, names_distinct (map a_name (pre ++ at_ "units" s :: post)) = true ->
+        v_units (fst (load_variable1 fi (Elem ns nm (pre ++ at_ "units" s :: post) ks))) = Some (convert_nonsi s)).
+Proof.
+  destruct Load1xProofs.convert_nonsi_table as (H1 & H2 & H3). repeat split; try assumption.
+  - intros. now apply Load1xProofs.nonsi_unit_renamed.
+  - intros. now apply Load1xProofs.nonsi_variable_renamed.
+Qed.
+Print Assumptions C14_nonsi_units_renamed.
+
+(** * dropped_constructs_only_messages *)
+Theorem C14_dropped_constructs_only_messages : forall E fx fi fd x, is_cellml20 "model" x = false -> is_1x "model" x = true ->
+  fst (load1x E fx fi fd false x) = fst (load1x E fx fi fd false (strip_foreign x))
+  /\ filter (fun i => negb (is_message i)) (snd (load1x E fx fi fd false x))
+     = filter (fun i => negb (is_message i)) (snd (load1x E fx fi fd false (strip_foreign x))).
+Proof. intros. now apply Drop1xProofs.dropped_only_messages. Qed.
+Print Assumptions C14_dropped_constructs_only_messages.
+
+(** non-vacuity: a document with an RDF block in the model, a reaction (with variable_ref / role) and an RDF block in a
+    component, an RDF block in a variable: stripped of them it is a different document, same model, and the issues of
+    the original are messages only *)
+Example C14_dropped_example :
+  strip_foreign drop_example <> drop_example
+  /\ forallb is_message (snd (load1x E0 true true true false drop_example)) = true
+  /\ length (snd (load1x E0 true true true false drop_example)) = 6.
+Proof. exact Drop1xProofs.drop_example_ok. Qed.
+Print Assumptions C14_dropped_example.
+
+(** where the pinned parser reports an ERROR for a foreign child element (before fix C14-foreign-children) *)
+Theorem C14_foreign_children_refuted :
+  existsb (fun i => negb (is_message i)) (snd (load1x E0 true true false false foreign_example)) = true
+  /\ forallb is_message (snd (load1x E0 true true true false foreign_example)) = true
+  /\ fst (load1x E0 true true false false foreign_example) = fst (load1x E0 true true true false foreign_example).
+Proof. exact Drop1xProofs.foreign_example_ok. Qed.
+Print Assumptions C14_foreign_children_refuted.
+
+(** known findings, as witnesses on the faithful model: several encapsulation groups (an ERROR, the second hierarchy is
+    lost); the 1.x attribute offset of a unit (an ERROR) *)
+Theorem C14_several_groups_refuted :
+  snd (load1x E0 true true true false groups_example) = [msg; err "MODEL_MORE_THAN_ONE_ENCAPSULATION"]
+  /\ map (fun c => (cname c, map cname (kids c))) (m_comps (fst (load1x E0 true true true false groups_example)))
+     = [("c", []); ("d", []); ("a", ["b"])].
+Proof. exact Drop1xProofs.groups_example_ok. Qed.
+Print Assumptions C14_several_groups_refuted.
+
+Theorem C14_unit_offset_refuted :
+  snd (load1x E0 true true true false offset_example) = [msg; err "UNIT_ATTRIBUTE_OPTIONAL"].
+Proof. exact Drop1xProofs.offset_example_ok. Qed.
+Print Assumptions C14_unit_offset_refuted.
+
+(** * math_units_attribute_moved: an element below math whose attributes have distinct local names — the attributes of
+      the 1.0 / 1.1 namespace end up in the 2.0 namespace with the same local name and value (behind the others, in their
+      order); every other attribute is untouched; elements and text are untouched *)
+Theorem C14_math_rewrite_attrs : forall l, names_distinct (map a_name l) = true ->
+  rewrite_attrs l = filter (fun a => negb (is1x a)) l ++ map to20 (filter is1x l).
+Proof. exact Load1xProofs.rewrite_attrs_spec. Qed.
+Print Assumptions C14_math_rewrite_attrs.
+
+Theorem C14_math_units_attribute_moved : forall l a, names_distinct (map a_name l) = true -> In a l ->
+  (is1x a = true -> In (to20 a) (rewrite_attrs l) /\ ~ In a (rewrite_attrs l))
+  /\ (is1x a = false -> In a (rewrite_attrs l)).
+Proof. exact Load1xProofs.math_units_attribute_moved. Qed.
+Print Assumptions C14_math_units_attribute_moved.
+
+Theorem C14_math_rewrite_shape : forall ns nm attrs ks,
+  rewrite_math (Elem ns nm attrs ks) = Elem ns nm attrs (map rewrite_below ks)
+  /\ rewrite_below (Elem ns nm attrs ks) = Elem ns nm (rewrite_attrs attrs) (map rewrite_below ks)
+  /\ (forall s, rewrite_below (Text s) = Text s) /\ rewrite_below Comment = Comment.
+Proof. intros. split; [reflexivity|]. apply Load1xProofs.rewrite_below_shape. Qed.
+Print Assumptions C14_math_rewrite_shape.
+
+(** the rewriting undoes [to1x]'s move of cellml:units into the 1.x namespace (math of the class math_ok1) *)
+Theorem C14_math_roundtrip : forall v x, math_ok1 x = true -> rewrite_math (conv_math v x) = x.
+Proof. intros. now apply TransformSimProofs.math_sim. Qed.
+Print Assumptions C14_math_roundtrip.
+
+(** * tie of the loader's rule names to the regenerated rule table *)
+Theorem C14_rules_in_table : forallb (fun r => existsb (String.eqb r) LCGen.RuleTable.rule_names) loader_rules = true.
+Proof. vm_compute. reflexivity. Qed.
+Print Assumptions C14_rules_in_table.
